@@ -454,4 +454,69 @@ theorem track_ids1 : ∀ (ops : List Op) (K : List Txn × List Txn) (k : Txn), k
     | addV2 path set => exact track_ids1 ops K k hk (fun b hb => hn b (by simpa [appliedBlocks] using hb))
     | query => exact track_ids1 ops K k hk (fun b hb => hn b (by simpa [appliedBlocks] using hb))
 
+/-! ## a rejected set leaves nothing behind, also not for the next re-validation -/
+
+theorem seqValid_false_of_not_ok (cfg : Cfg) (l : Ledger) (v2 : Bool) : ∀ (set : List Txn) (ms : MidState) (t : Txn),
+    t ∈ set → t.ok = false → seqValid cfg l v2 ms set = false
+  | [], _, _, h, _ => by cases h
+  | u :: set, ms, t, h, hok => by
+    rw [seqValid]
+    rcases List.mem_cons.1 h with rfl | h'
+    · simp [txValid, hok]
+    · rw [seqValid_false_of_not_ok cfg l v2 set _ t h' hok]; simp
+
+theorem refill_kept_sublist (cfg : Cfg) (l : Ledger) (v2 : Bool) : ∀ (ts : List Txn) (a : Acc),
+    ∃ rest, (refill cfg l v2 a ts).kept = a.kept ++ rest ∧ rest.Sublist ts
+  | [], a => ⟨[], by simp [refill], List.Sublist.slnil⟩
+  | t :: ts, a => by
+    obtain ⟨rest, h1, h2⟩ := refill_kept_sublist cfg l v2 ts (refillStep cfg l v2 a t)
+    rw [refill]
+    unfold refillStep at h1 ⊢
+    split
+    · rename_i hk; simp only [hk, if_true] at h1; exact ⟨rest, h1, h2.cons _⟩
+    · rename_i hk
+      simp only [hk, Bool.false_eq_true, if_false] at h1
+      split
+      · rename_i hv
+        simp only [hv, if_true] at h1
+        exact ⟨t :: rest, by rw [h1]; simp [push], h2.cons_cons _⟩
+      · rename_i hv
+        simp only [hv, Bool.false_eq_true, if_false] at h1
+        exact ⟨rest, h1, h2.cons _⟩
+
+/-- re-validating a valid, exactly indexed, non-full pool with nothing to re-offer gives the same
+two slices (whatever the mid-state and the weight counter say, as long as no eviction is triggered) -/
+theorem rebuild_same {cfg : Cfg} {S : Nat → Bool × List Nat × List Nat} {q p' : Pool}
+    (hc : PoolConf S q) (hi : IdxOK q) (hv : Valid cfg q)
+    (h1 : p'.txns = q.txns) (h2 : p'.v2txns = q.v2txns) (h3 : p'.led = q.led)
+    (h4 : p'.lastReverted = []) (h5 : p'.lastRevertedV2 = []) :
+    (rebuild cfg p').txns = q.txns ∧ (rebuild cfg p').v2txns = q.v2txns := by
+  have hconf : PoolConf S p' := ⟨h1 ▸ hc.t1, h2 ▸ hc.t2, by rw [h4]; simp, by rw [h5]; simp⟩
+  have hk := rebuild_retains cfg S p' q.txns q.v2txns
+    { conf := hconf
+      sub1 := by rw [h1]; exact List.Sublist.refl _
+      sub2 := by rw [h2]; exact List.Sublist.refl _
+      robust := by rw [h3]; exact hv.robust
+      rules1 := by rw [h3]; exact hv.rules.1
+      rules2 := by rw [h3]; exact hv.rules.2
+      nodup1 := by rw [h1]; exact hi.nodup1
+      nodup2 := by rw [h2]; exact hi.nodup2
+      others1 := fun x hx hn => absurd (h1 ▸ hx) hn
+      others2 := fun x hx hn => absurd (h2 ▸ hx) hn
+      reoffer := by rw [h4, h5]; simp }
+  obtain ⟨r1, k1, s1⟩ := refill_kept_sublist cfg p'.led false (p'.txns ++ p'.lastReverted) ⟨MidState.empty, fun _ => none, 0, []⟩
+  obtain ⟨r2, k2, s2⟩ := refill_kept_sublist cfg p'.led true (p'.v2txns ++ p'.lastRevertedV2)
+    { refill cfg p'.led false ⟨MidState.empty, fun _ => none, 0, []⟩ (p'.txns ++ p'.lastReverted) with kept := [] }
+  have e1 : (rebuild cfg p').txns = r1 := by
+    show (refill cfg p'.led false _ (p'.txns ++ p'.lastReverted)).kept = r1
+    rw [k1]; rfl
+  have e2 : (rebuild cfg p').v2txns = r2 := by
+    show (refill cfg p'.led true _ (p'.v2txns ++ p'.lastRevertedV2)).kept = r2
+    rw [k2]; rfl
+  rw [h4, List.append_nil, h1] at s1
+  rw [h5, List.append_nil, h2] at s2
+  constructor
+  · rw [e1] at hk ⊢; exact s1.eq_of_length (Nat.le_antisymm s1.length_le hk.1.length_le)
+  · rw [e2] at hk ⊢; exact s2.eq_of_length (Nat.le_antisymm s2.length_le hk.2.length_le)
+
 end Verif.Pool
